@@ -43,7 +43,11 @@ type H struct {
 	P *ir.Prog
 }
 
-func newH(c *chk.Ctx) *H { return &H{Ctx: c, P: c.P} }
+func newH(c *chk.Ctx) *H {
+	h := &H{Ctx: c, P: c.P}
+	resolveFieldRoles(h)
+	return h
+}
 
 // fn resolves a function anchor and records it; reports an unresolved anchor otherwise.
 func (h *H) fn(rule, pkg, recv, name string) *ssa.Function {
@@ -217,8 +221,85 @@ func closureArg(v ssa.Value) *ssa.Function {
 		return closureArg(x.X)
 	case *ssa.MakeInterface:
 		return closureArg(x.X)
+	case *ssa.Call:
+		// a closure factory: an extracted repository function whose only return hands out a
+		// function literal
+		if f := x.Call.StaticCallee(); f != nil && ir.InRepo(f) && f.Blocks != nil {
+			var rets []*ssa.Return
+			ir.Instrs(f, func(in ssa.Instruction) {
+				if r, ok := in.(*ssa.Return); ok {
+					rets = append(rets, r)
+				}
+			})
+			if len(rets) == 1 && len(rets[0].Results) == 1 {
+				if _, isCall := rets[0].Results[0].(*ssa.Call); !isCall {
+					return closureArg(rets[0].Results[0])
+				}
+			}
+		}
 	}
 	return nil
+}
+
+// closureUses lists the instructions that use the function value created by mc: its
+// referrers, and — when the literal is returned from an extracted single-call-site
+// factory — the referrers of the factory call.
+func closureUses(mc *ssa.MakeClosure) []ssa.Instruction {
+	var out []ssa.Instruction
+	if mc.Referrers() == nil {
+		return nil
+	}
+	for _, r := range *mc.Referrers() {
+		out = append(out, r)
+		if ret, ok := r.(*ssa.Return); ok && len(ret.Results) == 1 {
+			if site := ir.SingleCallSite(ret.Parent()); site != nil {
+				if v, ok := site.(ssa.Value); ok && v.Referrers() != nil {
+					out = append(out, *v.Referrers()...)
+				}
+			}
+		}
+	}
+	return out
+}
+
+// regionRoot climbs from fn to the function it belongs to when extracted single-call-site
+// helpers are folded back into their only caller.
+func regionRoot(fn *ssa.Function) *ssa.Function {
+	f := ir.Outermost(fn)
+	for i := 0; i < 8; i++ {
+		site := ir.SingleCallSite(f)
+		if site == nil {
+			return f
+		}
+		f = ir.Outermost(site.Parent())
+	}
+	return f
+}
+
+// regionOf lists root, its function literals and, transitively, the extracted
+// single-call-site helpers called from them (with their literals).
+func regionOf(root *ssa.Function) []*ssa.Function {
+	var out []*ssa.Function
+	seen := map[*ssa.Function]bool{}
+	var add func(f *ssa.Function)
+	add = func(f *ssa.Function) {
+		for _, g := range ir.WithAnon(f) {
+			if seen[g] {
+				continue
+			}
+			seen[g] = true
+			out = append(out, g)
+			ir.Instrs(g, func(in ssa.Instruction) {
+				if ci, ok := in.(ssa.CallInstruction); ok {
+					if callee := ci.Common().StaticCallee(); callee != nil && ir.SingleCallSite(callee) == ci {
+						add(callee)
+					}
+				}
+			})
+		}
+	}
+	add(root)
+	return out
 }
 
 // onceArgs decodes concurrent.NewOnce(ok, fail) behind a callback argument.
@@ -299,4 +380,85 @@ func fencingQuorumFn(h *H, rule string) *ssa.Function {
 	}
 	h.Fn(ir.FuncName(out[0]))
 	return out[0]
+}
+
+// liftToRoot maps an instruction of an extracted single-call-site helper (see regionOf)
+// to the call instruction in root through which it executes; an instruction of root maps
+// to itself. nil when `in` does not belong to root's region (or sits in a function literal).
+func liftToRoot(root *ssa.Function, in ssa.Instruction) ssa.Instruction {
+	for i := 0; i < 8; i++ {
+		f := in.Parent()
+		if f == root {
+			return in
+		}
+		site := ir.SingleCallSite(f)
+		if site == nil {
+			return nil
+		}
+		in = site
+	}
+	return nil
+}
+
+// helperFuncs lists root and the extracted single-call-site helpers called (transitively)
+// from root's own body, without function literals.
+func helperFuncs(root *ssa.Function) []*ssa.Function {
+	out := []*ssa.Function{root}
+	for i := 0; i < len(out); i++ {
+		ir.Instrs(out[i], func(in ssa.Instruction) {
+			if ci, ok := in.(ssa.CallInstruction); ok {
+				if callee := ci.Common().StaticCallee(); callee != nil && ir.SingleCallSite(callee) == ci && callee.Blocks != nil {
+					out = append(out, callee)
+				}
+			}
+		})
+	}
+	return out
+}
+
+// mayReturnNilError: the last result of ret is an error that is not provably non-nil.
+func mayReturnNilError(ret *ssa.Return) bool {
+	vals := ir.ReturnValues(ret)
+	if len(vals) == 0 {
+		return true
+	}
+	return valueMayBeNilAt(vals[len(vals)-1], ret)
+}
+
+// helperResult is one value an extracted helper can hand out at a result position
+// together with the return statement that does so.
+type helperResult struct {
+	V   ssa.Value
+	Ret *ssa.Return
+}
+
+// helperSuccessResults: when v is the i-th result of a call to a repository helper whose
+// last result is an error, it returns that call and, for every return of the helper that
+// may report success, the value returned at position i (in the helper's own context).
+func helperSuccessResults(v ssa.Value) (*ssa.Call, []helperResult) {
+	ex, ok := ir.Canon(v).(*ssa.Extract)
+	if !ok {
+		return nil, nil
+	}
+	call, ok := ex.Tuple.(*ssa.Call)
+	if !ok {
+		return nil, nil
+	}
+	g := call.Call.StaticCallee()
+	if g == nil || g.Blocks == nil || !ir.InRepo(g) || !ir.HasErrResult(call) {
+		return nil, nil
+	}
+	var out []helperResult
+	ir.Instrs(g, func(in ssa.Instruction) {
+		ret, isRet := in.(*ssa.Return)
+		if !isRet || in.Block() == g.Recover {
+			return
+		}
+		vals := ir.ReturnValues(ret)
+		if ex.Index >= len(vals) || !mayReturnNilError(ret) {
+			return
+		}
+		out = append(out, helperResult{V: vals[ex.Index], Ret: ret})
+	})
+	return call, out
 }
